@@ -37,6 +37,7 @@ type Spec struct {
 	Pre         string      `json:"pre,omitempty"`  // state of the output dir before the run: "" fresh | keep (do not clean)
 	Plan        *simrt.Plan `json:"plan,omitempty"` // nil: real binary / identity plan
 	GOMAXPROCS  int         `json:"gomaxprocs,omitempty"`
+	RaceLog     bool        `json:"race_log,omitempty"` // the binary is a -race build: collect its reports
 }
 
 type Op struct {
@@ -60,6 +61,7 @@ type Result struct {
 	Sites    map[string]simrt.SiteStat
 	Crashed  bool
 	Wall     time.Duration
+	RaceText string // race detector reports (RaceLog specs)
 }
 
 // Worker owns one module directory and runs specs in it one after the other.
@@ -132,7 +134,11 @@ func (w *Worker) Exec(bin string, s *Spec, timeout time.Duration) (*Result, erro
 	}
 	args = append(args, gfile)
 
-	env := []string{"PATH=/usr/bin:/bin", "HOME=" + w.Dir, "GOPATH=" + filepath.Join(w.Dir, "gopath"), "GOROOT=/nonexistent", "LANG=C"}
+	// One environment for every run that is ever compared with another (the
+	// property speaks of the same file, flags and directory; it does not promise
+	// independence from $HOME or $USER, so those are held constant, not varied).
+	env := []string{"PATH=/usr/bin:/bin", "HOME=/nonexistent/home", "GOPATH=/nonexistent/gopath", "GOROOT=/nonexistent", "LANG=C", "USER=sim", "TZ=UTC", "TMPDIR=" + filepath.Join(w.Dir, "tmp")}
+	os.MkdirAll(filepath.Join(w.Dir, "tmp"), 0o755)
 	if s.GOMAXPROCS > 0 {
 		env = append(env, "GOMAXPROCS="+strconv.Itoa(s.GOMAXPROCS))
 	}
@@ -148,6 +154,14 @@ func (w *Worker) Exec(bin string, s *Spec, timeout time.Duration) (*Result, erro
 			return nil, err
 		}
 		env = append(env, "VERIF_PLAN="+planPath)
+	}
+	raceLog := filepath.Join(w.Dir, "race")
+	if s.RaceLog {
+		old, _ := filepath.Glob(raceLog + ".*")
+		for _, p := range old {
+			os.Remove(p)
+		}
+		env = append(env, "GORACE=log_path="+raceLog+" halt_on_error=0")
 	}
 	ctx, cancel := context.WithTimeout(context.Background(), timeout)
 	defer cancel()
@@ -197,6 +211,14 @@ func (w *Worker) Exec(bin string, s *Spec, timeout time.Duration) (*Result, erro
 	}
 	if s.Plan != nil {
 		res.parseLog(logPath)
+	}
+	if s.RaceLog {
+		m, _ := filepath.Glob(raceLog + ".*")
+		for _, p := range m {
+			b, _ := os.ReadFile(p)
+			res.RaceText += string(b)
+			os.Remove(p)
+		}
 	}
 	return res, nil
 }
